@@ -179,6 +179,9 @@ CHECKS = {
         text="Lean heap model: allocation is fresh (allocCont_fresh, c12_alloc_fresh); a mutator (add_namespace, set_default_namespace, "
              "new_record) on container c leaves the container cell, manager cell and record cells of any container with another manager "
              "cell unchanged (c12_mut_frame), hence for every follow-up mutation sequence of any length (c12_noninterference, induction). "
+             "For the deriving operations themselves (Props/C12B): the document returned by flattened()/unified() in a well-formed heap "
+             "holds the manager cell allocated by the call, which no earlier container references (StableMgr through every step), so any "
+             "mutation sequence on the result leaves every earlier cell unchanged (c12_flattened_independent, c12_unified_independent). "
              "Derive->mutate->observe histories on the real objects for 11 deriving operations x 7 mutators, both directions.",
         note=A_COMMON + " Aliasing below record granularity (shared attribute sets) is not expressible in the heap model; it is exposed by the "
              "non-interference oracle and as a correspondence difference.",
